@@ -97,3 +97,39 @@ def rand_perm(rng, alts):
 
 def case(op, payload, **tags):
     return {"op": op, "payload": proto.norm(payload), "tags": tags}
+
+
+# ---------------------------------------------------------------------------------------------------
+# content of an instance as a later caller sees it (used by the history cases: a recogniser / rule / table function
+# that is asked about an instance must leave the PROFILE it was asked about in place, otherwise the next call on the
+# same object answers for a different profile). Only semantic content is compared: the multiset of ballots with
+# multiplicities, the counts, the names, the type. Storage order of dict keys / of the orders list and any extra
+# attribute (caches) are deliberately NOT compared, so a harmless rewrite cannot trip it.
+# ---------------------------------------------------------------------------------------------------
+def _canon_order_list(orders):
+    try:
+        return sorted(orders, key=repr)
+    except Exception:
+        return list(orders)
+
+
+def snapshot(inst):
+    snap = {}
+    for name in ("num_voters", "num_unique_orders", "num_unique_preferences", "num_alternatives", "num_categories",
+                 "num_edges", "data_type"):
+        if hasattr(inst, name):
+            snap[name] = getattr(inst, name)
+    for name in ("multiplicity", "alternatives_name", "categories_name"):
+        if hasattr(inst, name):
+            snap[name] = dict(getattr(inst, name))
+    for name in ("orders", "preferences"):
+        if hasattr(inst, name):
+            snap[name + " (as a multiset)"] = _canon_order_list(getattr(inst, name))
+    return snap
+
+
+def snap_diff(before, after):
+    for k in before:
+        if k not in after or before[k] != after[k] or type(before[k]) is not type(after[k]):
+            return "%s was %r, is now %r" % (k, before[k], after.get(k))
+    return None
